@@ -47,7 +47,7 @@ COMPONENTS = {
                   "file objects (SimFile)", "evaluation failures (EvalPoint)", "process / PYTHONHASHSEED (fresh interpreters)"],
     "stubbed": [],
 }
-EXPECTED_PROBES = ["eval-exactly-at-range-boundary", "switch-inside-write", "two-tasks-same-handle", "write-after-faulted-write", "excel-write-across-clock-jump",
+EXPECTED_PROBES = ["identical-form-text-other-helper-in-pool", "eval-exactly-at-range-boundary", "switch-inside-write", "two-tasks-same-handle", "write-after-faulted-write", "excel-write-across-clock-jump",
                    "backwards-clock-jump", "hashseed-comparison", "underspecified-eam-under-hashseeds", "shared-subform-different-args",
                    "same-form-name-different-formula-in-pool", "rebuild-same-model", "write-twice-same-handle", "eval-between-rows-of-own-write"]
 
@@ -128,6 +128,26 @@ def derive_variant(rng, spec, how):
                     if rng.random() < 0.5:
                         e[1] = _perturb_numbers(rng, e[1])
         return s
+    if how == "other-helper":
+        # everything textually identical except the helper that `outer` calls
+        pf = mg.get_section(s, "Potential-Form")
+        changed = False
+        if pf is not None:
+            for e in pf["entries"]:
+                if e[0].startswith("inner("):
+                    e[1] = "%s*(%s)" % (fmt_num(round(rng.uniform(0.4, 2.5), 3)), e[1])
+                    changed = True
+        for sec in s["sections"]:
+            if sec["name"] == "Table-Form:helper_tab":
+                for e in sec["entries"]:
+                    if e[0] in ("y", "xy"):
+                        vals = e[1].split()
+                        step, start = (2, 1) if e[0] == "xy" else (1, 0)
+                        for i in range(start, len(vals) - step, step):
+                            vals[i] = fmt_num(round(float(vals[i]) * rng.uniform(0.5, 1.5) + 0.02, 4))
+                        e[1] = " ".join(vals)
+                        changed = True
+        return s if changed else None
     if how == "pair-from-eam":
         if s["meta"]["kind"] == "pair":
             return s
@@ -145,6 +165,34 @@ def derive_variant(rng, spec, how):
                                             "cutoff": s["meta"]["cutoff"], "cutoff_rho": None, "species": s["meta"]["species"],
                                             "natural_fault": None}}
     return s
+
+
+def ensure_shared_subform(rng, spec):
+    """Make sure the model has a custom form `outer` that calls a helper (`inner` form or a table-form) and that
+    some function entry uses `outer`.  Returns the helper's (section name, entry key) or None."""
+    fe = [(si, ei) for si, ei, nm in mg.function_entries(spec) if nm != "EAM-Embed"]
+    if not fe:
+        return None
+    pf = mg.get_section(spec, "Potential-Form")
+    if pf is None:
+        pf = {"name": "Potential-Form", "entries": []}
+        spec["sections"].append(pf)
+    names = [e[0].split("(")[0].strip() for e in pf["entries"]]
+    if "outer" in names or "inner" in names:
+        return None
+    use_table = rng.random() < 0.4
+    if use_table:
+        tname = "helper_tab"
+        spec["sections"].append(mg.gen_table(rng, tname, spec["meta"]["cutoff"]))
+        helper = ("Table-Form:" + tname, None)
+        pf["entries"].append(["outer(r, b)", "b*%s(r) + %s" % (tname, fmt_num(round(rng.uniform(-1, 1), 3)))])
+    else:
+        pf["entries"].insert(rng.randint(0, len(pf["entries"])), ["inner(r, a)", "a*exp(-r/%s)" % fmt_num(round(rng.uniform(0.3, 1.2), 3))])
+        helper = ("Potential-Form", "inner(r, a)")
+        pf["entries"].append(["outer(r, b)", "b*inner(r, %s) + inner(r, %s)" % (fmt_num(round(rng.uniform(0.5, 3), 3)), fmt_num(round(rng.uniform(0.5, 3), 3)))])
+    for si, ei in rng.sample(fe, min(len(fe), rng.randint(1, 2))):
+        spec["sections"][si]["entries"][ei][1] = "outer %s" % fmt_num(round(rng.uniform(0.2, 4), 3))
+    return helper
 
 
 def _perturb_numbers(rng, d):
@@ -179,11 +227,18 @@ def gen_scenario(seed, tier="quick"):
     elif hs_run:
         opts.update({"max_species": 4, "min_species": 3, "min_functions": 4})
     base = mg.gen_model(rng, opts)
+    helper = ensure_shared_subform(rng, base) if rng.random() < 0.35 else None
     models = [base]
     nmodels = rng.choice([1, 2, 2, 3])
+    if helper and nmodels == 1:
+        nmodels = 2
     tags = ["base"]
-    while len(models) < nmodels:
+    guard = 0
+    while len(models) < nmodels and guard < 20:
+        guard += 1
         how = rng.choice(["retarget", "same-names-other-formulas", "same-names-other-formulas", "pair-from-eam", "independent", "identical"])
+        if helper and "other-helper" not in tags:
+            how = "other-helper"
         if how == "independent":
             o2 = dict(opts)
             if rng.random() < 0.7:
@@ -192,6 +247,8 @@ def gen_scenario(seed, tier="quick"):
             m = mg.gen_model(rng, o2)
         elif how == "identical":
             m = copy.deepcopy(rng.choice(models))
+        elif how == "other-helper":
+            m = derive_variant(rng, base, how)
         else:
             m = derive_variant(rng, rng.choice(models), how)
         if m is None:
@@ -822,6 +879,8 @@ def _probes(sc, refs, res, extra, bump):
         for op in ops:
             if op["op"] == "eval" and "bi" in op and op.get("eps") == 0.0 and op["h"] in hmodel and range_boundaries(sc["models"][hmodel[op["h"]]]):
                 bump("probe:eval-exactly-at-range-boundary")
+    if "other-helper" in sc.get("model_tags", []):
+        bump("probe:identical-form-text-other-helper-in-pool")
     if "same-names-other-formulas" in sc.get("model_tags", []):
         bump("probe:same-form-name-different-formula-in-pool")
     if len(sc["tasks"]) == 1 and False:
